@@ -99,15 +99,9 @@ func NewTendermintWALStore[V types.Hashable[H], H types.Hash, A types.Addr](
 	if err := recoverLatestWALTail(logs); err != nil {
 		return nil, fmt.Errorf("NewTendermintWALStore: recover latest WAL tail: %w", err)
 	}
-	prunedUpToHeight, err := loadPruneWatermark(walDir)
+	firstLiveHeight, err := firstLiveHeightFromWatermark(walDir)
 	if err != nil {
 		return nil, fmt.Errorf("NewTendermintWALStore: load prune watermark: %w", err)
-	}
-	// The watermark file stores the highest pruned height; it is absent (read as 0) until the
-	// first cleanup, which happens only after many heights have been pruned.
-	var firstLiveHeight types.Height
-	if prunedUpToHeight > 0 {
-		firstLiveHeight = prunedUpToHeight + 1
 	}
 
 	manager, err := pebblewal.Init(pebblewal.Options{
